@@ -292,7 +292,17 @@ def check_C10(tier, seed):
 
 
 def check_C13(tier, seed):
-    return _crashfault("C13", tier, seed, ("fault",), {"C13"}).finish()
+    from . import crashfault, txncheck
+    v = _crashfault("C13", tier, seed, ("fault",), {"C13"})
+    # the tagging transaction as a TLA+ model (spec/TagTxn.tla): model-checked for every
+    # start / site / mode, and its outcome per failing site compared with the real code's
+    cmpres = txncheck.compare(crashfault.run(tier, ("fault",), only="tag:"))
+    if not cmpres["tlc_ok"]:
+        v.machinery("TagTxn model check failed")
+    v.drift += cmpres["n_differ"] + cmpres["n_no_model_site"]
+    v.coverage["tag_transaction_model"] = cmpres
+    v.coverage["checker_cmd"] += " ; tlc TagTxn (roll-back transaction model, outcomes per fault site compared)"
+    return v.finish()
 
 
 def check_C09(tier, seed):
